@@ -9,8 +9,39 @@ import itertools
 
 from .absint import Interp
 from .loader import AnalysisError
-from .termeval import ev, path_matches, CannotEval, Raised
+from .termeval import ev, path_matches, CannotEval, Raised, NoAnswer
 from .values import K, T, Obj, TupleV, ListV, DictV, SetV, show
+
+
+class _CpuLimit:
+    """Bounds the CPU time of one evaluation (a library called by the
+    evaluator may loop on an input, as the code under analysis would): when
+    the limit is hit the evaluation ends with Raised('did not finish')."""
+
+    def __init__(self, seconds=30):
+        self.seconds = seconds
+
+    def __enter__(self):
+        import signal
+        import threading
+        self.active = threading.current_thread() is threading.main_thread()
+        if not self.active:
+            return self
+
+        def fire(signum, frame):
+            raise NoAnswer('no answer within %d s of CPU time' %
+                           self.seconds)
+        self.old = signal.signal(signal.SIGVTALRM, fire)
+        # fires again every second in case a library swallowed the first
+        signal.setitimer(signal.ITIMER_VIRTUAL, self.seconds, 1)
+        return self
+
+    def __exit__(self, *exc):
+        if self.active:
+            import signal
+            signal.setitimer(signal.ITIMER_VIRTUAL, 0)
+            signal.signal(signal.SIGVTALRM, self.old)
+        return False
 
 
 class Outcomes(list):
@@ -181,8 +212,11 @@ def grid_compare(rep, rule, key, label, outcomes, grids, oracle,
         got = None
         if not guided_all:
             try:
-                o = outcome_at(outcomes, val, hooks)
-                got = outcome_value(o, val, hooks)
+                with _CpuLimit():
+                    o = outcome_at(outcomes, val, hooks)
+                    got = outcome_value(o, val, hooks)
+            except NoAnswer as e:
+                got = ('raise', str(e))
             except CannotEval as e:
                 if recipe is None or n_guided >= GUIDED_LIMIT:
                     rep.undecided(rule, key, '%s: %s' % (label, e), where)
@@ -191,7 +225,10 @@ def grid_compare(rep, rule, key, label, outcomes, grids, oracle,
         if got is None:
             n_guided += 1
             try:
-                got = guided_outcome(recipe, val, hooks)
+                with _CpuLimit():
+                    got = guided_outcome(recipe, val, hooks)
+            except NoAnswer as e:
+                got = ('raise', str(e))
             except CannotEval as e:
                 rep.undecided(rule, key, '%s: %s%s' % (
                     label, 'interpretation inexact: %s; ' % notes
@@ -203,6 +240,9 @@ def grid_compare(rep, rule, key, label, outcomes, grids, oracle,
                 bad = (named, got, want)
             else:
                 more.append(named)
+            if got[0] == 'raise' and isinstance(got[1], str) and \
+                    got[1].startswith('no answer within'):
+                break       # every further input may take as long
     for s in sigs:
         rep.case({'case': label, 'outcome': s}, (key, label, s))
     rep.evaluations += max(n - len(sigs), 0)
@@ -349,14 +389,21 @@ def guided_compare(rep, rule, key, label, world, thunk, grids, oracle,
         interp.guide = guide
         if setup:
             setup(interp)
-        outs = interp.explore(thunk, max_paths=64)
-        if len(outs) != 1 or not outs[0].exact:
-            rep.undecided(rule, key, '%s: input %s: %d paths %s' % (
-                label, named, len(outs), [o.notes for o in outs][:2]),
-                where)
-            return False
         try:
-            got = outcome_value(outs[0], val, hooks)
+            with _CpuLimit():
+                outs = interp.explore(thunk, max_paths=64)
+                if len(outs) != 1 or not outs[0].exact:
+                    rep.undecided(rule, key, '%s: input %s: %d paths %s' % (
+                        label, named, len(outs),
+                        [o.notes for o in outs][:2]), where)
+                    return False
+                got = outcome_value(outs[0], val, hooks)
+        except NoAnswer as e:
+            got = ('raise', str(e))
+        except AnalysisError as e:
+            rep.undecided(rule, key, '%s: input %s: %s' % (label, named, e),
+                          where)
+            return False
         except CannotEval as e:
             rep.undecided(rule, key, '%s: input %s: %s' % (label, named, e),
                           where)
@@ -364,6 +411,9 @@ def guided_compare(rep, rule, key, label, world, thunk, grids, oracle,
         sigs.add(_sig(got)[:80])
         if not same_outcome(got, want, value_eq) and bad is None:
             bad = (named, got, want)
+        if got[0] == 'raise' and isinstance(got[1], str) and \
+                got[1].startswith('no answer within') and bad is not None:
+            break           # every further input may take as long
     for s_ in list(sigs)[:8]:
         rep.case({'case': label, 'outcome': s_}, (key, label, s_))
     rep.evaluations += max(n - min(len(sigs), 8), 0)
